@@ -54,7 +54,7 @@ def run(tier):
     rep = Report(PID, tier)
     wd = vlib.workdir(PID)
     vlib.build_harness()
-    sc.model_check(rep, wd, {"MCStreamingAsBuiltRace", "MCStreamingAsBuiltLatest", "MCStreamingAsBuiltGc"})
+    sc.model_check(rep, wd, {"MCStreamingAsBuiltRace", "MCStreamingAsBuiltLatest", "MCStreamingAsBuiltGc", "MCStreamingAsBuiltCkpt"})
     describe = "recovery changed by compaction / flush interleaving: {what}"
     seq = [s for s in sc.exported_sequential(wd) if any(o[0] == "compact" for o in s["ops"])]
     runs, bad = sc.replay_validate(rep, wd, seq, "sequential", describe)
